@@ -1,5 +1,6 @@
 import MqttVerif.Driver.AllocDrv
 import MqttVerif.Driver.FrameDrv
+import MqttVerif.Driver.ConnDrv
 /-!
 `mqttdrv` — reads a trace (produced by the Rust harness running the real code) on stdin,
 replays every call through the Lean model, evaluates the property monitors on the
@@ -14,6 +15,7 @@ inductive Mode
   | none
   | alloc (st : AllocSt) (stack : List AllocSt)
   | frame (st : FrameSt)
+  | conn (run : ConnRun)
 
 partial def loop (h : IO.FS.Stream) (ln : Nat) (m : Mode) (r : Report) : IO Report := do
   let raw ← h.getLine
@@ -25,6 +27,10 @@ partial def loop (h : IO.FS.Stream) (ln : Nat) (m : Mode) (r : Report) : IO Repo
     | _ :: "alloc" :: rest =>
       match allocStart rest with
       | some st => loop h (ln + 1) (.alloc st []) { r with traces := r.traces + 1 }
+      | none => loop h (ln + 1) .none (r.mdiff "parse" s!"line {ln}: bad trace header `{line}`")
+    | _ :: "conn" :: rest =>
+      match connStart rest with
+      | some cs => loop h (ln + 1) (.conn { cs := cs }) { r with traces := r.traces + 1 }
       | none => loop h (ln + 1) .none (r.mdiff "parse" s!"line {ln}: bad trace header `{line}`")
     | _ :: "frame" :: name :: _ =>
       loop h (ln + 1) (.frame { name := name }) { r with traces := r.traces + 1 }
@@ -43,6 +49,12 @@ partial def loop (h : IO.FS.Stream) (ln : Nat) (m : Mode) (r : Report) : IO Repo
         let (st', r') := allocLine st ln (line.drop 2).toString r
         loop h (ln + 1) (.alloc st' stack) r'
       else loop h (ln + 1) m (r.mdiff "parse" s!"line {ln}: unexpected `{line}`")
+    | .conn run =>
+      if line = "END" then loop h (ln + 1) .none r
+      else if line.startsWith "X " then
+        let (run', r') := connLine run ln (line.drop 2).toString r
+        loop h (ln + 1) (.conn run') r'
+      else loop h (ln + 1) m (r.mdiff "parse" s!"line {ln}: unexpected `{line.take 60}`")
     | .frame st =>
       if line = "END" then loop h (ln + 1) .none (frameEnd st ln r)
       else if line.startsWith "F " then
